@@ -561,6 +561,25 @@ def c06_battery(binary):
         for extra, kw in (([], {}), (["--unique"], {"rf_under": 2})):
             check("--isolate with two roots whose last directory names are equal", ["--isolate"] + extra + ["x/r", "y/r"], expected(["x/r", "y/r"], True, False, False, **kw))
             check("--isolate with nested-looking roots", ["--isolate"] + extra + ["x/r", "y/r", "r1"], expected(["x/r", "y/r", "r1"], True, False, False, **kw))
+        # sibling roots one of whose names is a string prefix of the other
+        for nm in ("data", "data2", "dat"):
+            os.makedirs(os.path.join(w, nm))
+            open(os.path.join(w, nm, "z_" + nm), "wb").write(b"Z" * 55)
+        for roots in (["data", "data2"], ["data2", "data"], ["dat", "data", "data2"], ["data", "data2", "dat"]):
+            check("--isolate with sibling roots %s" % roots, ["--isolate"] + roots, [sorted("z_" + r for r in roots)])
+            check("--isolate --rf-over %d with sibling roots %s" % (len(roots), roots), ["--isolate", "--rf-over", str(len(roots) - 1)] + roots, [sorted("z_" + r for r in roots)])
+        # followed links whose absolute target is not canonical: the file must still count as one path
+        os.makedirs(os.path.join(w, "real", "sub"))
+        open(os.path.join(w, "real", "sub", "only"), "wb").write(b"O" * 45)
+        os.symlink("real", os.path.join(w, "alias"))
+        os.makedirs(os.path.join(w, "scan1"))
+        os.makedirs(os.path.join(w, "scan2"))
+        os.symlink(os.path.join(w, "alias", "sub"), os.path.join(w, "scan1", "lnk"))
+        os.symlink(os.path.join(w, "scan2", "..", "real", "sub"), os.path.join(w, "scan2", "lnk"))
+        for sc in ("scan1", "scan2"):
+            check("-L with a directory link whose absolute target is not canonical (%s), --match-links" % sc, ["-L", "--match-links", sc, "real"], [])
+            check("-L with a directory link whose absolute target is not canonical (%s)" % sc, ["-L", sc, "real"], [])
+            check("-L --unique with a directory link whose absolute target is not canonical (%s)" % sc, ["-L", "--unique", sc, "real"], [["only"]])
         check("--isolate with --base-dir and relative roots, run from another directory", ["--isolate", "--base-dir", w, "r1", "r2"], want, cwd=os.path.join(w, "other"))
         check("--isolate --unique with --base-dir and relative roots", ["--isolate", "--unique", "--base-dir", w, "r1", "r2"], want_u, cwd=os.path.join(w, "other"))
     finally:
